@@ -215,6 +215,8 @@ def gen_geo(ctx, i):
                 cs[col.name] = c
         desc['centres'] = cs
     if rng.random() < 0.3:
+        desc['columns_renamed'] = rename_some_columns(rng, geo)
+    if rng.random() < 0.3:
         geo.gdcx = rng.choice([0.0, 0.1, -0.25, None])
         geo.gdcy = rng.choice([0.0, 0.05, None])
         geo.permeability_angle = rng.choice([0.0, 30.0, -17.5, 90.0, 45.25])
@@ -224,6 +226,30 @@ def gen_geo(ctx, i):
         geo.atmosphere_connection = rng.choice([1e-6, 1e-3, 0.5])
         desc['atm'] = [geo.atmosphere_volume, geo.atmosphere_connection]
     return geo, desc
+
+
+def rename_some_columns(rng, geo):
+    """Gives some columns (never just the last ones) other names through rename_column(), as a user relabelling part of a
+    model does.  Returns the list of (old, new) pairs."""
+    w = geo.colname_length
+    if geo.num_columns < 2:
+        return []
+    k = rng.randint(1, max(1, geo.num_columns // 2))
+    idx = sorted(rng.sample(range(geo.num_columns - 1), min(k, geo.num_columns - 1)))
+    olds = [geo.columnlist[i].name for i in idx]
+    pool = []
+    for a in 'yzxw':
+        for b in ('0123456789abcdefghij' if w > 2 else ''):
+            for c in '0123456789':
+                pool.append((a + b + c)[:w].rjust(w) if w > 2 else (a + c))
+        if w <= 2:
+            pool += [a + c for c in '0123456789']
+    pool = [n for n in dict.fromkeys(pool) if n not in geo.column and n not in geo.node]
+    if len(pool) < len(olds):
+        return []
+    news = pool[:len(olds)]
+    geo.rename_column(olds, news)
+    return list(zip(olds, news))
 
 
 def read_bytes(fn):
@@ -357,6 +383,8 @@ def derive(rng, name, ops):
                 col.centre_specified = 1
                 n += 1
         ops.append(['specify_centres', n])
+    if rng.random() < 0.4:
+        ops.append(['rename_columns', rename_some_columns(rng, geo)])
     return geo
 
 
